@@ -86,4 +86,51 @@ theorem ikErr_false_iff (eomg ev : ℝ) (V : V6 ℝ) :
 theorem ik_same_cap {Θ : Type} (err : Θ → Bool) (upd : Θ → Θ) (θ0 : Θ) :
     MRRef.ikLoop err upd 20 θ0 = MRRef.ikLoop err upd 20 θ0 := rfl
 
+/-- the time scalings start at 0 and end at 1 (so a trajectory starts at its start and ends at its end), for every duration Tf ≠ 0 -/
+theorem cubic_endpoints (Tf : ℝ) (h : Tf ≠ 0) : cubicTimeScaling Tf 0 = 0 ∧ cubicTimeScaling Tf Tf = 1 := by
+  unfold cubicTimeScaling
+  simp only [ofNat_real_one, ofNat_real]
+  constructor
+  · simp
+  · rw [one_mul, div_self h]; norm_num
+
+theorem quintic_endpoints (Tf : ℝ) (h : Tf ≠ 0) : quinticTimeScaling Tf 0 = 0 ∧ quinticTimeScaling Tf Tf = 1 := by
+  unfold quinticTimeScaling
+  simp only [ofNat_real_one, ofNat_real]
+  constructor
+  · simp
+  · rw [one_mul, div_self h]; norm_num
+
+/-- …and stay inside [0, 1] in between: the path parameter never overshoots -/
+theorem cubic_range (Tf t : ℝ) (hT : 0 < Tf) (h0 : 0 ≤ t) (h1 : t ≤ Tf) :
+    0 ≤ cubicTimeScaling Tf t ∧ cubicTimeScaling Tf t ≤ 1 := by
+  unfold cubicTimeScaling
+  simp only [ofNat_real_one, ofNat_real]
+  rw [one_mul]
+  have hu0 : 0 ≤ t / Tf := div_nonneg h0 hT.le
+  have hu1 : t / Tf ≤ 1 := (div_le_one hT).mpr h1
+  generalize t / Tf = u at hu0 hu1
+  constructor
+  · nlinarith [mul_nonneg hu0 hu0, mul_nonneg (mul_nonneg hu0 hu0) (sub_nonneg.mpr hu1)]
+  · nlinarith [mul_nonneg (sub_nonneg.mpr hu1) (sub_nonneg.mpr hu1), mul_nonneg (mul_nonneg (sub_nonneg.mpr hu1) (sub_nonneg.mpr hu1)) hu0]
+
+theorem quintic_range (Tf t : ℝ) (hT : 0 < Tf) (h0 : 0 ≤ t) (h1 : t ≤ Tf) :
+    0 ≤ quinticTimeScaling Tf t ∧ quinticTimeScaling Tf t ≤ 1 := by
+  unfold quinticTimeScaling
+  simp only [ofNat_real_one, ofNat_real]
+  rw [one_mul]
+  have hu0 : 0 ≤ t / Tf := div_nonneg h0 hT.le
+  have hu1 : t / Tf ≤ 1 := (div_le_one hT).mpr h1
+  generalize t / Tf = u at hu0 hu1
+  have hv : 0 ≤ 1 - u := sub_nonneg.mpr hu1
+  constructor
+  · -- s = u^3 (10 - 15u + 6u^2) and 10 - 15u + 6u^2 = 6(u - 5/4)^2 + 5/8 > 0
+    have : 10 * (u * u * u) - 15 * (u * u * u * u) + 6 * (u * u * u * u * u) = (u * u * u) * (6 * (u - 5 / 4) ^ 2 + 5 / 8) := by ring
+    rw [this]; positivity
+  · -- 1 - s = (1-u)^3 (1 + 3u + 6u^2)
+    have : 10 * (u * u * u) - 15 * (u * u * u * u) + 6 * (u * u * u * u * u) = 1 - ((1 - u) * (1 - u) * (1 - u)) * (1 + 3 * u + 6 * u ^ 2) := by ring
+    rw [this]
+    have : 0 ≤ ((1 - u) * (1 - u) * (1 - u)) * (1 + 3 * u + 6 * u ^ 2) := by positivity
+    linarith
+
 end BR.C02
